@@ -1280,6 +1280,13 @@ func (gc GoCode) Write(w io.Writer, indent int) error {
 	if err != nil {
 		source = []byte(gc.Expression.Value)
 	}
+	if !gc.Multiline && endsWithLineComment(source) {
+		// A line comment would comment out the closing braces.
+		if err := writeIndent(w, indent, `{{ `, string(source), "\n"); err != nil {
+			return err
+		}
+		return writeIndent(w, indent, "}}")
+	}
 	if !gc.Multiline {
 		return writeIndent(w, indent, `{{ `, string(source), ` }}`)
 	}
@@ -1287,6 +1294,29 @@ func (gc GoCode) Write(w io.Writer, indent int) error {
 		return err
 	}
 	return writeIndent(w, indent, "}}")
+}
+
+// endsWithLineComment reports whether the last token of the Go code is a // comment.
+func endsWithLineComment(src []byte) bool {
+	fset := token.NewFileSet()
+	file := fset.AddFile("", fset.Base(), len(src))
+	var s scanner.Scanner
+	s.Init(file, src, nil, scanner.ScanComments)
+	var last string
+	for {
+		_, tok, lit := s.Scan()
+		if tok == token.EOF {
+			break
+		}
+		if tok == token.SEMICOLON && lit == "\n" {
+			continue
+		}
+		last = ""
+		if tok == token.COMMENT {
+			last = lit
+		}
+	}
+	return strings.HasPrefix(last, "//")
 }
 
 // StringExpression is used within HTML elements, and for style values.
